@@ -186,8 +186,11 @@ func judgeC12(hst Hist) *h.Verdict {
 				return v.Failf("recharge-notifications", "step %d: recharge sent %d notifications, want exactly 1", step, len(notes))
 			}
 			n := notes[0]
-			if n.Path != "/notify/"+st.supi {
-				return v.Failf("recharge-notify-uri", "step %d: notification went to %s, the subscriber's consumer registered /notify/%s", step, n.Path, st.supi)
+			if n.Path != st.notify {
+				return v.Failf("recharge-notify-uri", "step %d: notification went to %s, the subscriber's consumer last registered %s", step, n.Path, st.notify)
+			}
+			if st.creates > 1 {
+				v.NT("recharge-after-several-registrations")
 			}
 			if len(n.Body.ReauthorizationDetails) != 1 || n.Body.ReauthorizationDetails[0].RatingGroup != rg {
 				return v.Failf("recharge-notify-body", "step %d: notification body %s does not name exactly rating group %d", step, n.Raw, rg)
